@@ -365,7 +365,12 @@ def _checkout(  # noqa: C901
             failed.extend(exc.paths)
         else:
             if is_local_fs:
-                info = _localfs_info(entry_path)
+                try:
+                    info = _localfs_info(entry_path)
+                except FileNotFoundError:
+                    # NOTE: e.g. a symlink to an object that is not in the cache
+                    failed.append(entry_path)
+                    continue
                 hashes_to_update.append((entry_path, change.new.oid, info))
                 updated_mtimes[entry_path] = info["mtime"]
 
